@@ -22,10 +22,16 @@ RULE = ("struct: class bodies = items {function, classmethod, staticmethod, prop
         "cached_property, wrapped function / foreign descriptor, plain attribute, user __getattr__/__setattr__/"
         "__attrs_init_subclass__} x closure use {__class__, super(), none} x cell sharing {compiler cell shared by all "
         "methods, private cell, cell holding another object, empty cell} x metaclass {type, custom, ABCMeta} x api "
-        "{attr.s, define, these=} x weakref_slot x cache_hash x {mutable, frozen, hooks} x base chains (<=3 + mixin) of "
+        "{attr.s, define, these=} x weakref_slot x cache_hash x {mutable, frozen, hooks} x base chains (<=3 + a plain mixin as second direct base, BEFORE or "
+        "after the chain's class: multiple inheritance where the attrs base is direct but not __base__; plus a targeted family "
+        "mixin x (un)hooked dict/slotted attrs base) of "
         "{slotted attrs, dict attrs, plain __slots__, plain, plain __slots__=('__weakref__',), Exception} with hooks, cached "
         "properties, __attrs_init_subclass__ in bases x own fields overlapping base fields / base slot names x body keys "
-        "shadowing inherited fields x a body-level __slots__ x histories of cached-property reads on two instances. "
+        "shadowing inherited fields x a body-level __slots__ x histories of cached-property reads on two instances; every inherited "
+        "__attrs_init_subclass__ hook probes the class it receives AT THE TIME OF THE CALL (invokes every method / classmethod / "
+        "staticmethod / property accessor / cached property that uses __class__ or super(), snapshots __slots__, dict keys, "
+        "fields()); the same class object is afterwards built as a dict class and every field is assigned on both builds (hook "
+        "log, outcome, value). "
         "isub: every chain of <=3 (quick) / <=5 (thorough) levels over {plain, dict attrs, slotted attrs} x defines-hook, "
         "random longer ones. meta: initbuild class chains (C01/C02/C12 space) built with leaf slots on and off x call "
         "shapes (malformed included) x single-fault positions x operations. Non-trivial: struct = a function uses the class, "
@@ -45,6 +51,10 @@ ASSUMPTIONS = [
     "a class definition that attrs itself refuses (exception raised from inside the attr package) for a specification the "
     "harness can otherwise define is observed as 'no class' and fails the specification; an exception from the harness's own "
     "class statements is a generator bug (tool failure)",
+    "struct: the assignment comparison with the dict twin is skipped for frozen leaves (everything raises; the frozen dict twin "
+    "may hit K3), for a body-level __slots__ and for body keys shadowing inherited fields; multiple inheritance is exercised in "
+    "the struct and isub parts only (initbuild's chains, used by the meta part, are single-inheritance); __set_name__ of foreign "
+    "descriptors being re-run for the new class is observed as a runtime fact; ABCMeta abstract-method bookkeeping is not probed",
     "meta: construction is compared with the shared initializer model (C08_metamorphic is proved about it); ==, hash pattern, "
     "ordering, repr, assignment and deletion (hook traces), evolve, asdict/astuple, copy/deepcopy/pickle (protocols 0-5) are "
     "compared between the two builds directly: an observed relation (their models live in C03/C04/C06/C09-C13)",
@@ -145,8 +155,11 @@ def gen_struct(rng):
             bs["cache_hash"] = False
     hs["bases"] = bases
     hs["mixin"] = None
-    if rng.random() < 0.2:
-        hs["mixin"] = {"kind": rng.choice(["pempty", "pdict"]), "isub": rng.random() < 0.4}
+    if rng.random() < 0.25:
+        # a second direct base, before or after the chain's last class (multiple inheritance: the attrs base is
+        # then a direct base without being `__base__`)
+        hs["mixin"] = {"kind": rng.choice(["pempty", "pdict"]), "isub": rng.random() < 0.4,
+                       "first": rng.random() < 0.5}
         if hs["mixin"]["kind"] == "pdict":
             weak = True
     # class-level hooks in a base are written with attr.s(on_setattr=...): realised in build_bases through a field hook
@@ -240,6 +253,39 @@ def gen_struct(rng):
     return hs
 
 
+def gen_struct_mi(rng):
+    """targeted: two direct bases = a plain mixin and a (hooked or not) attrs class, either order; the leaf writes
+    no __setattr__ of its own, so whether the inherited attrs-made one is reset decides what an assignment does"""
+    hs = gen_struct(rng)
+    kind = rng.choice(["dattrs", "dattrs", "sattrs"])
+    fields = rng.sample(FIELD_POOL, rng.choice([1, 1, 2]))
+    base = {"kind": kind, "fields": fields, "weakref_slot": rng.random() < 0.5, "cache_hash": False,
+            "hook": rng.random() < 0.75}
+    if rng.random() < 0.3:
+        base["isub"] = True
+    pre = []
+    if rng.random() < 0.3:
+        pre = [{"kind": rng.choice(["pdict", "dattrs"]), "fields": [], "weakref_slot": True, "cache_hash": False}]
+        if pre[0]["kind"] == "pdict":
+            pre[0].pop("fields")
+    hs["bases"] = pre + [base]
+    hs["mixin"] = {"kind": rng.choice(["pempty", "pdict"]), "isub": rng.random() < 0.3, "first": rng.random() < 0.65}
+    hs["frozen"] = False
+    hs["hook"] = rng.random() < 0.15
+    hs["cache_hash"] = False
+    hs["body_slots"] = None
+    hs["fields"] = [f for f in hs["fields"] if f not in fields][:2]
+    if hs["hook"] and not hs["fields"]:
+        hs["fields"] = [next(f for f in FIELD_POOL if f not in fields)]
+    inherited = set(fields)
+    hs["items"] = [[k, sp] for k, sp in hs["items"] if k not in inherited and k not in hs["fields"]]
+    hs["custom_setattr"] = any(k == "__setattr__" for k, _ in hs["items"])
+    if hs["custom_setattr"]:
+        hs["hook"] = False
+    _repair(hs)
+    return hs
+
+
 def struct_case(hs):
     case = cs.lean_case(hs)
     case["kind"] = "struct"
@@ -271,6 +317,53 @@ def isub_case(chain, rng):
 
 
 ISUB_LOG: list = []
+_ISUB_SRC: dict = {}
+
+
+def _isub_hook_body(k, cls):
+    """runs INSIDE the hook: is the class it received finished?  (methods bound to it, dict final)"""
+    ok = True
+    try:
+        inst = cls()
+        if inst.who() is not cls:            # __class__ of a method of the received class
+            ok = False
+        cls.sup()                            # zero-argument super() in a classmethod
+        inst.sup_i()                         # ... and in a method
+        if cls.stat() is not cls:            # __class__ in a staticmethod
+            ok = False
+        if inst.prop is not cls:
+            ok = False
+        cls.prop.fset(inst, 1)               # the setter uses super()
+    except BaseException:  # noqa: BLE001
+        ok = False
+    if "__attrs_attrs__" not in cls.__dict__:
+        ok = False
+    ISUB_LOG.append((k, cls, ok, ("__slots__" in cls.__dict__)))
+
+
+def _isub_class(k, base, defines, fields):
+    key = (k, defines, fields)
+    code = _ISUB_SRC.get(key)
+    if code is None:
+        src = [f"class L{k}(_base):"]
+        if fields:
+            src.append(f"    f{k} = attr.ib(default={k})")
+        src += ["    def who(self): return __class__",
+                "    @classmethod",
+                "    def sup(cls): super(); return True",
+                "    def sup_i(self): super(); return True",
+                "    @staticmethod",
+                "    def stat(): return __class__",
+                "    @property",
+                "    def prop(self): return __class__",
+                "    @prop.setter",
+                "    def prop(self, v): super()"]
+        if defines:
+            src += ["    @classmethod", f"    def __attrs_init_subclass__(cls): _HOOK({k}, cls)"]
+        code = _ISUB_SRC[key] = compile("\n".join(src), f"<c08 isub L{k}>", "exec")
+    ns = {"_base": base, "attr": attr, "_HOOK": _isub_hook_body, "__name__": "verif_c08"}
+    exec(code, ns)
+    return ns[f"L{k}"]
 
 
 def observe_isub(case):
@@ -279,14 +372,7 @@ def observe_isub(case):
     base = object
     cfg = case.get("cfg", {})
     for k, lvl in enumerate(case["chain"]):
-        ns = {"__module__": "verif_c08"}
-        if lvl["defines"]:
-            def hook(cls, _k=k):
-                ISUB_LOG.append((_k, cls))
-            ns["__attrs_init_subclass__"] = classmethod(hook)
-        if lvl["attrs"] and cfg.get("fields"):
-            ns[f"f{k}"] = attr.ib(default=k)
-        cls = type(f"L{k}", (base,), ns)
+        cls = _isub_class(k, base, bool(lvl["defines"]), bool(lvl["attrs"] and cfg.get("fields")))
         if lvl["attrs"]:
             kw = {"slots": bool(lvl["slots"])}
             if cfg.get("frozen"):
@@ -301,19 +387,20 @@ def observe_isub(case):
                 if not cs.attrs_caused(e):
                     raise
                 del ISUB_LOG[:]
-                return {"calls": [{"definer": 999, "received": 999, "final": False}]}    # no class at all
+                return {"calls": [{"definer": 999, "received": 999, "final": False, "probe": False}]}    # no class at all
         finals.append(cls)
         base = cls
     calls = []
-    for d, got in ISUB_LOG:
+    for d, got, ok, has_slots in ISUB_LOG:
         rec = None
         for j, f in enumerate(finals):
             if got is f:
-                rec = {"definer": d, "received": j, "final": True}
+                ok = ok and has_slots == bool(case["chain"][j]["attrs"] and case["chain"][j]["slots"])
+                rec = {"definer": d, "received": j, "final": True, "probe": bool(ok)}
         if rec is None:
             name = getattr(got, "__name__", "")
             j = int(name[1:]) if name[:1] == "L" and name[1:].isdigit() else 999
-            rec = {"definer": d, "received": j, "final": False}
+            rec = {"definer": d, "received": j, "final": False, "probe": bool(ok)}
         calls.append(rec)
     del ISUB_LOG[:]
     return {"calls": calls}
@@ -374,8 +461,8 @@ def gen_cases(tier, rng):
     # struct and meta interleaved so that a budget cut keeps both
     n = 2600 if quick else 120000
     for i in range(n):
-        for _ in range(3):
-            hs = gen_struct(rng)
+        for j in range(3):
+            hs = gen_struct_mi(rng) if (j == 2 and i % 3 == 0) else gen_struct(rng)
             try:
                 case = struct_case(hs)
             except Exception as e:  # noqa: BLE001 -- the generator emits only definable classes
@@ -424,7 +511,9 @@ def dist(case, obs):
             "s.meta": hs["meta"], "s.api": hs["api"], "s.natural": hs["natural"],
             "s.mode": "frozen" if hs["frozen"] else "hooks" if hs["hook"] else "none",
             "s.bases": "+".join(b["kind"] for b in hs["bases"]) or "-",
-            "s.mixin": (hs["mixin"] or {}).get("kind"),
+            "s.mixin": ((hs["mixin"] or {}).get("kind") or "-") + ("/first" if (hs["mixin"] or {}).get("first") else ""),
+            "s.assignAgree": obs.get("assignAgree") if isinstance(obs, dict) else "?",
+            "s.hookCalls": len(obs.get("hookCalls", [])) if isinstance(obs, dict) else "?",
             "s.n_items": len(hs["items"]), "s.n_fields": len(hs["fields"]),
             "s.item_kinds": "+".join(sorted({s["k"] for _, s in hs["items"]})) or "-",
             "s.weakref_slot": hs["weakref_slot"], "s.cache_hash": hs["cache_hash"],
@@ -642,7 +731,9 @@ LEVEL_TEXT = (
     "C08_cells_rebound_kinds / C08_cells_exact (exactly the cells of plain functions, class/staticmethod __func__, property "
     "getters, setters and deleters (after the K08a repair), the generated __getattr__, cached-property functions and the "
     "shadowed __getattr__ are rewritten, only if they held the original class), C08_calls_new, "
-    "C08_cached_once (two-state machine over arbitrary read histories), C08_init_subclass_once, C08_init_subclass_chain (dict "
+    "C08_cached_once (two-state machine over arbitrary read histories), C08_init_subclass_once, "
+    "C08_init_subclass_sees_final_class (the hook runs after the cell rewrite: whatever it invokes on the class sees the final "
+    "class), C08_init_subclass_chain (dict "
     "and slotted builds, subclasses of subclasses), C08_setattr_reset (the inherited-hook reset as a decision and when it "
     "agrees with the dict build; K6 otherwise), C08_metamorphic (the initializer model's signature, annotations, outcome, "
     "values, callback trace and exception args do not depend on `slots` under slot-belief = slot-truth, malformed calls and "
